@@ -385,6 +385,6 @@ impl Family for StallFamily {
         out.into_iter().map(|s| serde_json::to_value(s).unwrap()).collect()
     }
     fn watchdog_ms(&self) -> u64 {
-        180_000
+        90_000
     }
 }
